@@ -39,6 +39,19 @@ BAND = 330000     # |tick| band in which the integer liquidity math keeps 1e-12 
 SPECS = [(6, 18), (18, 6), (8, 18), (18, 18), (6, 6)]
 
 
+def bar_volumes(rng):
+    """(quote volume, base volume) of a bar: often one-directional — a bar in which only one of the two tokens flowed in (or none)"""
+    vq, vb = Decimal(rng.randint(0, 10 ** 12)), Decimal(rng.randint(0, 10 ** 24))
+    k = rng.random()
+    if k < 0.15:
+        vq = Decimal(0)
+    elif k < 0.3:
+        vb = Decimal(0)
+    elif k < 0.34:
+        vq = vb = Decimal(0)
+    return vq, vb
+
+
 class Pair:
     """world A: token0 = quote (q0 = True); world B: the mirror (token0 = base)"""
 
@@ -53,7 +66,7 @@ class Pair:
         tA = tick if tick is not None else rng.randint(-BAND // sp, BAND // sp) * sp
         bal = (Decimal(rng.randint(10 ** 3, 10 ** 8)) / 100, Decimal(rng.randint(10 ** 3, 10 ** 9)) / 100)
         liq = Decimal(rng.randint(10 ** 14, 10 ** 24))
-        vq, vb = Decimal(rng.randint(0, 10 ** 12)), Decimal(rng.randint(0, 10 ** 24))
+        vq, vb = bar_volumes(rng)
         if restore:     # a stored replay: the wallet and the status row of the recorded pair
             bal = tuple(Decimal(x) for x in restore["balances"])
             liq, vq, vb = Decimal(restore["liq"]), Decimal(restore["vq"]), Decimal(restore["vb"])
@@ -75,7 +88,7 @@ class Pair:
     def refresh(self, rng, new_tick):
         """next bar: new close tick / price, fee accrual on both"""
         liq = Decimal(rng.randint(10 ** 14, 10 ** 24))
-        vq, vb = Decimal(rng.randint(0, 10 ** 12)), Decimal(rng.randint(0, 10 ** 24))
+        vq, vb = bar_volumes(rng)
         price = self.A.market.tick_to_price(new_tick)
         self.A.set_status(new_tick, price, liq, vq, vb)
         self.B.set_status(-new_tick, price, liq, vb, vq)
@@ -300,6 +313,17 @@ def regime_flip(P, op):
         return False
 
 
+def price_ticks_aligned(P):
+    """add_liquidity_by_value looks the token ratio up (and decides below / inside / above) at price_to_tick(price): the floor tick of the pool's own
+    orientation rounded to the spacing.  When the two orientations' ticks are mirror images (the hypothesis of C09_add_by_value_one_sided_partial)
+    the known finding's cause is absent, and the helper is held to the property; when they are one spacing apart it is the known finding."""
+    try:
+        pa, pb = P.A.market.market_status.data.price, P.B.market.market_status.data.price
+        return P.A.market.price_to_tick(pa) == -P.B.market.price_to_tick(pb)
+    except Exception:  # noqa: BLE001
+        return True
+
+
 def liq_granularity(P):
     """liquidity is an integer: one unit is 1/L of a position, so amounts cannot agree better than ~2/L (relevant below L = 2e12)"""
     ls = [int(p.liquidity) for w in (P.A, P.B) for p in w.market.positions.values() if p.liquidity > 0]
@@ -452,6 +476,14 @@ def run_sequence(ctx, rng, n_ops, spec=None, frac=None, tick=None, script=None, 
             ctx.count("boundary_regime_flip_skipped")
             return
         else:
+            # add_liquidity_by_value: the known findings are about price ticks that round differently in the two orientations; everything else
+            # (aligned ticks) is reported under its own keys
+            by_value_tag = ""
+            if op["op"] == "add_by_value":
+                by_value_tag = "" if not price_ticks_aligned(P) else ".ticks-aligned"
+                reg += ":ticks-aligned" if by_value_tag else ":ticks-differ"
+                if by_value_tag:
+                    rep = dict(rep, aligned=True)
             (ea, ra), (eb, rb) = apply_both(P, op)
             outcome = f"{ea or 'ok'}"
             if any(regime_flip(P, {"op": "x", "lower": k.lower_tick, "upper": k.upper_tick}) for k in P.A.market.positions):
@@ -459,7 +491,7 @@ def run_sequence(ctx, rng, n_ops, spec=None, frac=None, tick=None, script=None, 
                 ctx.count("boundary_regime_flip_skipped")
                 return
             if ea != eb:
-                ctx.violate(f"mirror.{op['op']}.outcome", f"{op['op']} ({reg}): {ea or 'ok'} on the token0=quote pool, {eb or 'ok'} on its mirror", rep)
+                ctx.violate(f"mirror.{op['op']}.outcome{by_value_tag}", f"{op['op']} ({reg}): {ea or 'ok'} on the token0=quote pool, {eb or 'ok'} on its mirror", rep)
                 return
             if ea is None and ra is not None:
                 est = op["op"] == "add_by_value"
@@ -493,7 +525,7 @@ def run_sequence(ctx, rng, n_ops, spec=None, frac=None, tick=None, script=None, 
                     return
                 bad = [i for i, (x, y) in enumerate(zip(ka, kb)) if not close(x, y, tol, abs_tol(i))]
                 if bad:
-                    ctx.violate(f"mirror.{op['op']}.result", f"{op['op']} ({reg}) returned {[float(x) for x in ka]} vs mirrored {[float(x) for x in kb]}", rep)
+                    ctx.violate(f"mirror.{op['op']}.result{by_value_tag}", f"{op['op']} ({reg}) returned {[float(x) for x in ka]} vs mirrored {[float(x) for x in kb]}", rep)
                     return
         ctx.case(f"{op['op']}:{reg}:{P.dq}/{P.db}:{P.fee}:{outcome}", rep if len(rep["ops"]) <= 2 else None)
         tol = TOL_EST if any(o["op"] == "add_by_value" for o in rep["ops"]) else max(TOL, liq_granularity(P), conditioning_tol(P))
@@ -501,7 +533,7 @@ def run_sequence(ctx, rng, n_ops, spec=None, frac=None, tick=None, script=None, 
             ctx.count("price_within_a_tick_of_a_bound_compared_at_4e-17/distance")
         with U.guard("get_market_balance/get_position_status", {"world": U.world_spec(P.A), "ops": []}):
             oa, ob = observe(P.A, False), observe(P.B, True)
-        if not compare_obs(ctx, P, oa, ob, f"state-after.{op['op']}", rep, tol):
+        if not compare_obs(ctx, P, oa, ob, f"state-after.{op['op']}" + (by_value_tag if op["op"] == "add_by_value" else ""), rep, tol):
             return
         if rng.random() < est_p:
             estimates(ctx, P, rng, rep, reg)
